@@ -23,6 +23,7 @@ typedef struct {
     uint64_t looping_start_time;
     uint64_t idle_time;
     uint64_t recv_msgs;
+    uint64_t last_recv_time;                // Last time recv_events() returned; per-context: contexts live on different threads
     size_t running_modules;
 } ctx_stats_t;
 
